@@ -28,7 +28,8 @@ OBJ_TAMPERS = ['out_value', 'out_script', 'add_output', 'remove_output', 'outpoi
                'locktime', 'version', 'in_amount', 'sig_flip', 'sig_outsider', 'sig_other_digest', 'drop_sig',
                'drop_sig_pad', 'version_bytes', 'version_int', 'coinbase_flag_out_value']
 BYTE_TAMPERS = ['out_value', 'out_script', 'add_output', 'remove_output', 'outpoint_n', 'outpoint_hash', 'sequence',
-                'locktime', 'version', 'in_amount', 'sig_flip', 'drop_sig', 'drop_sig_pad', 'add_null_input']
+                'locktime', 'version', 'in_amount', 'sig_flip', 'drop_sig', 'drop_sig_pad', 'add_null_input',
+                'sig_hashtype']
 
 
 def _expected_by_construction(plan):
@@ -244,12 +245,21 @@ def _tamper_bytes(raw, plan, tam, amounts):
         if plan['inputs'][k]['kind'] not in ('p2wpkh', 'p2sh_p2wpkh', 'p2wsh_ms', 'p2sh_p2wsh_ms'):
             return None
         amounts[k] += 1
-    elif op in ('sig_flip', 'drop_sig', 'drop_sig_pad'):
+    elif op in ('sig_flip', 'drop_sig', 'drop_sig_pad', 'sig_hashtype'):
         sigs = _find_sig_items(tx, k)
         if not sigs:
             return None
         where, n = sigs[tam['b'] % len(sigs)]
-        if op == 'sig_flip':
+        if op == 'sig_hashtype':
+            # the hash type byte appended to the signature is changed: the signature was made for SIGHASH_ALL and
+            # commits to another digest than the one the new type selects
+            def retype(b):
+                return bytes(b[:-1]) + bytes([[0x02, 0x03, 0x81, 0x82, 0x83, 0x00, 0x41, 0x04][tam['b'] % 8]])
+            if where == 'wit':
+                tx.vin[k].witness[n] = retype(tx.vin[k].witness[n])
+            else:
+                _rebuild_ss(tx, k, lambda items: [retype(it) if idx == n else it for idx, it in enumerate(items)])
+        elif op == 'sig_flip':
             def flip(b):
                 b = bytearray(b)
                 # flip a bit inside s (last 8 bytes before the hash-type byte) keeping DER shape
